@@ -124,6 +124,36 @@ def bus_histories(rng, n, steps=(30, 120), cpu0=True):
     return cases
 
 
+EDGES = [0x0000, 0x1fff, 0x2000, 0x3fff, 0x4000, 0x5fff, 0x6000, 0x7fff, 0x8000, 0x9fff, 0xa000, 0xa1ff, 0xa200, 0xbfff,
+         0xc000, 0xdfff, 0xe000, 0xfdff, 0xfe00, 0xfe9f, 0xfea0, 0xfeff, 0xff00, 0xff0f, 0xff10, 0xff26, 0xff2f, 0xff30,
+         0xff3f, 0xff40, 0xff4b, 0xff4c, 0xff7f, 0xff80, 0xfffd, 0xfffe, 0xffff]
+
+
+def edge_cases(rng, n):
+    """every boundary address of the memory map written and read on every kind of cartridge, and the stack pointer of
+    a guest program placed on each boundary (PUSH/POP/CALL/RET touch both sides of it)"""
+    cases = []
+    for i in range(n):
+        typ = G.ALL_TYPES[i % len(G.ALL_TYPES)]
+        lines = ['sys.new %d %d %d 1 0' % (typ, rng.choice([0, 1, 2]), rng.choice([0, 2, 3])), 'safe.ok']
+        if i % 2:
+            lines.append('sys.w 0xFF40 0x11')
+        for a in EDGES:
+            lines += ['sys.w 0x%04x %d' % (a, rng.choice([0x0a, 0x00, 0xff, rng.randrange(256)])), 'sys.r 0x%04x' % a]
+        lines += ['sys.hw 200']
+        for a in EDGES:
+            lines.append('sys.r 0x%04x' % a)
+        cases.append(('edge%d' % i, lines))
+    for i, spv in enumerate([0xfffe, 0xffff, 0x0000, 0xff80, 0xff81, 0xfea0, 0xfe00, 0xe000, 0xc000, 0xa000, 0x8000, 0xff00]):
+        # PUSH BC; POP DE; CALL next; RET-less loop: C5 D1 CD 06 C0 (at C006:) 18 F8
+        lines = ['mayexit', 'sys.cpurom', 'safe.ok']
+        for j, b in enumerate([0xc5, 0xd1, 0xcd, 0x06, 0xc0, 0x00, 0xc1, 0x18, 0xf7]):
+            lines.append('sys.w %d %d' % (0xc000 + j, b))
+        lines += ['sys.set 1 2 3 4 5 0 6 7 %d 49152' % spv, 'sys.cyc 60', 'sys.get']
+        cases.append(('sp%d' % i, lines))
+    return cases
+
+
 # ---------------------------------------------------------------- (d) (e) programs
 def program_cases(rng, n, cycles):
     cases = []
@@ -247,6 +277,7 @@ def generate(rng, tier):
     ch = G.hostile_images(rng, 200 if t else 20)
     add('cart_hostile', ch if t else ch[::4])
     add('bus_histories', bus_histories(rng, 2500 if t else 150))
+    add('edges', edge_cases(rng, 64 if t else 16))
     add('programs', program_cases(rng, 1500 if t else 110, 6000 if t else 1800))
     add('random_bytes', random_byte_programs(rng, 600 if t else 40, 3000 if t else 1000))
     add('dma_pages', dma_cases(rng, range(256) if t else list(range(0, 256, 5)) + [0xfe, 0xff, 0xdf, 0xe0, 0xf1, 0xf2]))
